@@ -32,6 +32,7 @@
 static std::atomic<uint64_t> g_seed{0};
 static std::atomic<uint32_t> g_max_us{0};
 static std::atomic<uint32_t> g_epoch{0};           // bumped by every `perturb`: threads re-seed
+static std::atomic<int> g_producers_waiting{0};   // producers inside free_buffers_cv_.wait right now
 static std::atomic<uint64_t> g_producer_waits{0};  // untimed cond waits by producer threads = back-pressure blocks
 static thread_local int t_role = 0;                // 0 unknown (back end / others), 1..8 producer tid+1, 100 main, -1 never perturb
 static thread_local uint64_t t_rng = 0;
@@ -80,9 +81,12 @@ int pthread_mutex_unlock(pthread_mutex_t *m) {
 }
 int pthread_cond_wait(pthread_cond_t *c, pthread_mutex_t *m) {
     static auto real = real_fn<int (*)(pthread_cond_t *, pthread_mutex_t *)>("pthread_cond_wait");
-    if (t_role >= 1 && t_role <= 8) g_producer_waits.fetch_add(1, std::memory_order_relaxed);
+    bool prod = (t_role >= 1 && t_role <= 8);
+    if (prod) { g_producer_waits.fetch_add(1, std::memory_order_relaxed); g_producers_waiting.fetch_add(1); }
     maybe_delay();
-    return real(c, m);
+    int r = real(c, m);
+    if (prod) g_producers_waiting.fetch_sub(1);
+    return r;
 }
 int pthread_cond_timedwait(pthread_cond_t *c, pthread_mutex_t *m, const struct timespec *t) {
     static auto real = real_fn<int (*)(pthread_cond_t *, pthread_mutex_t *, const struct timespec *)>("pthread_cond_timedwait");
@@ -172,6 +176,7 @@ struct Sink {
     std::atomic<int> inside{0};
     std::atomic<bool> overlap{false};
     std::atomic<bool> gate_closed{false};      // `fillhold`: the back end is held inside the callback
+    std::atomic<bool> held{false};             // the back end is waiting at the closed gate right now
     uint32_t sink_us = 0;
 };
 
@@ -341,7 +346,8 @@ int main() {
                     const uint8_t *q = static_cast<const uint8_t *>(p);
                     s->stream.insert(s->stream.end(), q, q + n);
                     if (s->sink_us) usleep(s->sink_us);
-                    while (s->gate_closed.load(std::memory_order_acquire)) usleep(200);
+                    while (s->gate_closed.load(std::memory_order_acquire)) { s->held.store(true); usleep(200); }
+                    s->held.store(false);
                     maybe_delay();
                     s->inside.fetch_sub(1);
                 });
@@ -381,13 +387,21 @@ int main() {
             Prod p; p.tid = (unsigned)a; p.pace_us = 0; p.toks.push_back(Tok{'a', (unsigned)b});
             unsigned seq0 = g_seq[p.tid];
             std::thread th([&] { producer_main(p, seq0, go); finished.store(true, std::memory_order_release); });
-            int blocked = 0;
-            for (int i = 0; i < 2000; ++i) {            // up to ~2 s
+            // quiescent point: the producer is INSIDE free_buffers_cv_.wait (it found buff_num_ at the limit) and the back
+            // end is held inside the sink (it cannot recycle or delete): sample twice around reading the live count
+            int blocked = 0; long live = 0;
+            for (int i = 0; i < 2000 && !blocked; ++i) {            // up to ~2 s
                 if (finished.load(std::memory_order_acquire)) break;
-                if (g_producer_waits.load() > waits0 && g_sink->inside.load() == 1) { usleep(20000); if (!finished.load()) blocked = 1; break; }
-                usleep(1000);
+                if (g_producers_waiting.load() == 1 && g_sink->held.load()) {
+                    usleep(5000);
+                    if (g_producers_waiting.load() == 1 && g_sink->held.load() && !finished.load()) {
+                        live = g_live_bufs.load();
+                        if (g_producers_waiting.load() == 1 && g_sink->held.load()) blocked = 1;
+                    }
+                }
+                if (!blocked) usleep(1000);
             }
-            long live = g_live_bufs.load();
+            if (!blocked) live = g_live_bufs.load();
             std::cout << "M held live=" << live << " blocked=" << blocked << "\n";
             g_sink->gate_closed.store(false, std::memory_order_release);
             th.join();
